@@ -36,6 +36,10 @@ var c12Times = map[string][]int{
 	"R1": {1, 14}, "R2": {2}, "R3": {8, 9, 10},
 }
 
+// c12Chains: constant pairs for which (x op a) op b and x op (a op b) differ by far more than any tolerance
+// (absorption, overflow of the intermediate result).
+var c12Chains = []struct{ a, b float64 }{{1e16, -1e16}, {1e308, 1e-308}, {-1e16, 1e16}, {3, 4}}
+
 func c12Build(in c12Input) ([]mockq.Rec, refmodel.Expr) {
 	var data []mockq.Rec
 	add := func(side string, as []int) {
@@ -114,6 +118,22 @@ func c12Build(in c12Input) ([]mockq.Rec, refmodel.Expr) {
 		}
 		pr := pairs[int(in.S)%len(pairs)]
 		return data, &refmodel.Bin{Op: in.Op, L: pr[0], R: pr[1]}
+	case "chain": // two literal operations in a row: evaluated one after the other, as written (float arithmetic does not re-associate)
+		c := c12Chains[int(in.S)%len(c12Chains)]
+		var x refmodel.Expr = l
+		if in.RVar == 1 {
+			x = &refmodel.Vec{V: 1}
+		}
+		a, b := &refmodel.Lit{V: c.a}, &refmodel.Lit{V: c.b}
+		switch int(in.S) / len(c12Chains) {
+		case 0:
+			return data, &refmodel.Bin{Op: in.Op, L: &refmodel.Bin{Op: in.Op, L: x, R: a}, R: b}
+		case 1:
+			return data, &refmodel.Bin{Op: in.Op, L: b, R: &refmodel.Bin{Op: in.Op, L: a, R: x}}
+		case 2:
+			return data, &refmodel.Bin{Op: in.Op, L: &refmodel.Bin{Op: in.Op, L: a, R: x}, R: b}
+		}
+		return data, &refmodel.Bin{Op: in.Op, L: b, R: &refmodel.Bin{Op: in.Op, L: x, R: a}}
 	case "vs":
 		return data, &refmodel.Bin{Op: in.Op, L: l, R: &refmodel.Lit{V: in.S}, Bool: in.Bool}
 	case "sv":
@@ -366,7 +386,7 @@ func c12Run(r *vkit.Run) {
 			r.State(fmt.Sprint(l, rr))
 		}
 	}
-	r.Note("bounds", "left/right vectors = sum by (a) (count_over_time({side=..}[10s])) for every pair of subsets of a in {1,2,3} (equal, overlapping, disjoint, empty), optionally shifted/scaled to reach 0, negatives and fractions; vector-scalar and scalar-vector for 12 operators x scalars {0,2,-3,0.5,0.1,0.3}; comparisons with and without the bool modifier; vector(n) against a literal on every step; labelled series against vector(n); two grouping labels listed in different orders on the two sides; the empty label set produced by without(all labels); a left side that is empty at whole steps; comparisons of operands that differ by 1e-10 or by one ulp; vector-vector for 15 operators x 6 operand variants; instant and 4-step range in which series appear, persist and disappear on either side; for the 16 pairs with >= 2 series on both sides, 6 operators x instant/range under every hash-map iteration order within 1 (thorough: 2) rotated iterations")
+	r.Note("bounds", "left/right vectors = sum by (a) (count_over_time({side=..}[10s])) for every pair of subsets of a in {1,2,3} (equal, overlapping, disjoint, empty), optionally shifted/scaled to reach 0, negatives and fractions; vector-scalar and scalar-vector for 12 operators x scalars {0,2,-3,0.5,0.1,0.3}; comparisons with and without the bool modifier; vector(n) against a literal on every step; labelled series against vector(n); two grouping labels listed in different orders on the two sides; the empty label set produced by without(all labels); two literal operations in a row (+, -, * with constants that absorb or overflow, in the four nestings); a left side that is empty at whole steps; comparisons of operands that differ by 1e-10 or by one ulp; vector-vector for 15 operators x 6 operand variants; instant and 4-step range in which series appear, persist and disappear on either side; for the 16 pairs with >= 2 series on both sides, 6 operators x instant/range under every hash-map iteration order within 1 (thorough: 2) rotated iterations")
 }
 
 func c12Replay(r *vkit.Run, v vkit.Violation) *vkit.Violation {
